@@ -12,6 +12,10 @@
 (*   "output"  v: "ok" | "noparent" | "isdir" | "devfull"   (last wins)    *)
 (*   "sarif" | "sonar" | "hotspots" | "dojo"   v: "ok" | "missing" | "dup" | "two" *)
 (*   "flag"    harmless option                                            *)
+(*   "unser"   harmless option whose value is not valid UTF-8 (argv bytes  *)
+(*             that the OS hands over as lone surrogates): the run works,  *)
+(*             but the report - which quotes the command line - cannot be  *)
+(*             serialised, i.e. cannot be written                          *)
 (* env.ai: "none" | "half" | "both" (AI client configuration)              *)
 (*                                                                         *)
 (* Order of the conditions = the order in which the program can first know *)
@@ -20,7 +24,7 @@
 (***************************************************************************)
 EXTENDS Integers, Sequences, FiniteSets
 
-St0 == [dir |-> "none", incl |-> FALSE, excl |-> FALSE, unknown |-> FALSE,
+St0 == [dir |-> "none", incl |-> FALSE, excl |-> FALSE, unknown |-> FALSE, unser |-> FALSE,
         output |-> "none", sarif |-> "none", sonar |-> "none", hotspots |-> "none", dojo |-> "none"]
 
 RECURSIVE Parse(_, _)
@@ -35,6 +39,7 @@ Parse(toks, st) ==
          [] t.k = "unknown" -> Parse(r, [st EXCEPT !.unknown = TRUE])
          [] t.k = "dir"     -> IF st.dir = "none" THEN Parse(r, [st EXCEPT !.dir = t.v])
                                ELSE Parse(r, [st EXCEPT !.unknown = TRUE])
+         [] t.k = "unser"   -> Parse(r, [st EXCEPT !.unser = TRUE])
          [] t.k = "output"  -> Parse(r, [st EXCEPT !.output = t.v])
          [] t.k = "sarif"   -> Parse(r, [st EXCEPT !.sarif = t.v])
          [] t.k = "sonar"   -> Parse(r, [st EXCEPT !.sonar = t.v])
@@ -52,12 +57,13 @@ ExpectedExit(toks, env) ==
        ELSE IF BadFile(s.sarif) \/ BadFile(s.sonar) \/ BadFile(s.hotspots) \/ BadFile(s.dojo) THEN 1
        ELSE IF env = "half" THEN 3
        ELSE IF s.output \in {"noparent", "isdir", "devfull"} THEN 2      \* "ok", "devnull", "fifo": the report is delivered
+       ELSE IF s.output # "none" /\ s.unser THEN 2                      \* the report cannot be serialised
        ELSE 0
 
 \* does the run get as far as writing a report, and is the report then on disk?
 ReportExpected(toks, env) ==
   LET p == Parse(toks, St0) IN
-  p.exit = 99 /\ ExpectedExit(toks, env) = 0 /\ p.st.output = "ok"
+  p.exit = 99 /\ ExpectedExit(toks, env) = 0 /\ p.st.output = "ok" /\ ~p.st.unser
 
 (* ---- lemmas on the reference (checked in every generator state) ---- *)
 LemmaRange(toks, env)    == ExpectedExit(toks, env) \in {0, 1, 2, 3}
@@ -65,7 +71,7 @@ LemmaInfoFirst(toks, env) == (toks # <<>> /\ Head(toks).k = "info") => ExpectedE
 LemmaFlagNeutral(toks, env) ==   \* appending a harmless flag never changes the status
   ExpectedExit(Append(toks, [k |-> "flag", v |-> "x"]), env) = ExpectedExit(toks, env)
 LemmaTwoOnlyWithBadOutput(toks, env) ==
-  ExpectedExit(toks, env) = 2 => \E i \in 1..Len(toks) : toks[i].k = "output" /\ toks[i].v # "ok"
+  ExpectedExit(toks, env) = 2 => \E i \in 1..Len(toks) : (toks[i].k = "output" /\ toks[i].v # "ok") \/ toks[i].k = "unser"
 LemmaNoDirNoRun(toks, env) ==
   (~\E i \in 1..Len(toks) : toks[i].k = "dir") => ExpectedExit(toks, env) \in {0, 3}
 =============================================================================
